@@ -619,7 +619,9 @@ class MQTTProtocol(MQTTBaseProtocol):
         for _, reply in self.factory.windowPubRelease[self.addr].items():
             self._retryRelease(reply, dup=True)
         for _, request in self.factory.windowPublish[self.addr].items():
-            if request.protocol is not self:
+            # a running alarm means it has already gone out on this connection
+            # (requested here, or held back earlier and released by a refill)
+            if request.alarm is None:
                 self._retryPublish(request, dup=True)
 
     # --------------------------------------------------------------------------
